@@ -296,6 +296,13 @@ func main() {
 	var strs []string
 	for _, x := range lattice {
 		strs = append(strs, x.String())
+		// the same number written with an explicit sign and with leading zeros (the sign branch of the unsigned
+		// parser and the width it parses the magnitude at)
+		if x.Sign() >= 0 {
+			strs = append(strs, "+"+x.String(), "0"+x.String(), "+00"+x.String())
+		} else {
+			strs = append(strs, "-0"+x.String()[1:])
+		}
 		if x.IsInt64() {
 			v := x.Int64()
 			sources = append(sources, v)
@@ -325,7 +332,7 @@ func main() {
 		sources = append(sources, f, float32(f))
 	}
 	sources = append(sources, float32(math.SmallestNonzeroFloat32))
-	strs = append(strs, "+5", " 5", "5 ", "1e3", "0x10", "", "abc", "1.5", "-0", "NaN", "Inf", "true", "007", "-1.0", "1_000", "٣")
+	strs = append(strs, "+5", "+0", "-00", "+", "-", "+-5", "++5", "+ 5", " 5", "5 ", "1e3", "0x10", "", "abc", "1.5", "-0", "NaN", "Inf", "true", "007", "-1.0", "1_000", "٣")
 	// ---- numeric sources
 	seenSrc := map[string]bool{}
 	var samples lib.Samples
